@@ -159,13 +159,6 @@ func (d *Decoder) Decode(pkt *rtp.Packet) ([]byte, error) {
 		return result, nil
 	}
 
-	// If we know the expected size and have reached it, return the complete unit
-	if d.expectedSize > 0 && len(d.buffer) >= d.expectedSize {
-		result := d.buffer[:d.expectedSize]
-		d.reset()
-		return result, nil
-	}
-
 	// Need more packets
 	return nil, ErrMorePacketsNeeded
 }
